@@ -27,7 +27,7 @@ fn declare() {
 fn kinds(mask: u32) {
     use crate::instruction::verif_gate::*;
     declare();
-    crate::variable::verif_valgate::allow_vals(1 << crate::variable::verif_valgate::V_ARRAY);
+    crate::variable::verif_valgate::allow_vals(0);
     allow_mask((1 << K_VARIABLE) | mask);
 }
 use crate::instruction::verif_gate::{K_BINOPERATION, K_BLOCK, K_IFELSE, K_LOOP, K_MATCH, K_SETIFELSE, K_UNARYOPERATION};
@@ -69,6 +69,7 @@ fn the_match(scrutinee: Variable, x2: i64) -> Instruction {
 /// kind of the scrutinee enumerated concretely (0 int, 1 float, 2 string, 3 array, 4 ()), value symbolic
 fn match_selects(kind: u8, fold: bool) {
     kinds(1 << K_MATCH);
+    crate::variable::verif_valgate::allow_vals(1 << crate::variable::verif_valgate::V_ARRAY);
     crate::verif_model::set_order(0);
     let (x, x2): (i64, i64) = (kani::any(), kani::any());
     let f: f64 = kani::any();
@@ -108,6 +109,7 @@ match_harness!(match_void_folded, 4, true);
 /// arms  a: [int] => 1 ; s: string|float => 2   against scrutinee types from the universe
 fn exhaustive(t: Ty) {
     kinds(1 << K_MATCH);
+    crate::variable::verif_valgate::allow_vals(1 << crate::variable::verif_valgate::V_ARRAY);
     crate::verif_model::set_order(0);
     let arms: Vec<MatchArm> = vec![
         MatchArm::Type { ident: "a".into(), var_type: real(T_ARR_INT), instruction: iws(konst(1)) },
@@ -157,6 +159,7 @@ pub fn match_accepted_is_exhaustive_unions() {
 /// if x: T = e   runs the body exactly when the runtime type of e matches T
 fn set_if_else(kind: u8, fold: bool) {
     kinds(1 << K_SETIFELSE);
+    crate::variable::verif_valgate::allow_vals(1 << crate::variable::verif_valgate::V_ARRAY);
     crate::verif_model::set_order(0);
     let x: i64 = kani::any();
     let e = match kind {
